@@ -544,9 +544,9 @@ class C30(Prop):
                   'batch is a real batch against the known target sha); status_is_for_current_head (build_state success always has a real '
                   'batch; a new head resets batch/build state in the refresh that learns it); one_merge_per_target_update (an accepted merge '
                   'forgets the target sha, no merge without it, only a GitHub refresh restores it, at most one accepted merge per block). '
-                  'The full statement "the batch service has a SUCCESSFUL batch of this head against this target" is refuted in Lean and on '
-                  'the real code (known finding: two PRs with the same head commit), proved for the one-line candidate patch, and proved '
-                  'for the code as it is under the explicit hypothesis NoStaleSuccess.')
+                  'merge_only_tested: the batch service has a SUCCESSFUL batch of the merged head against the known target (full '
+                  'strength, code as of commit aefc231fb). The code before that commit is kept as fix=false: the statement is refuted for it '
+                  'in Lean (two PRs with the same head commit).')
     level_note = ('PARTIAL: GitHub and the batch service are models (FakeGH, FakeBatchClient / the svc component of the Lean state); the only '
                   'GitHub guarantee used is that a merge request with a stale `sha` is refused. Deploy batches, the frozen flag, invalidated '
                   'batches, authorized_shas, assignee handling and MergeFailure details are outside the model (non-deployable, unfrozen '
